@@ -444,6 +444,18 @@ def run_cond_rng(ctx, i, rng):
     ctx.op('nn.%s(branches draw rngs)' % kind)
     ctx.check(close(yp, yl), 'rng:%s_branch_draws_differ_from_python' % kind, lambda: dict(case=desc, python=np.asarray(yp).tolist(), lifted=np.asarray(yl).tolist()))
     ctx.check(close(zp, zl), 'rng:draw_after_%s_differs_from_python' % kind, lambda: dict(case=desc, python=np.asarray(zp).tolist(), lifted=np.asarray(zl).tolist()))
+    # branches that draw DIFFERENT numbers of keys: whatever branch is taken, the draw after the conditional is a fresh key
+    # (not one of the keys the taken branch used)
+    if kind == 'cond' and not child:
+      class U(nn.Module):
+        @nn.compact
+        def __call__(self, x, pred):
+          t = lambda m, x: (jax.random.key_data(m.make_rng('dropout')).astype(jnp.float32), jax.random.key_data(m.make_rng('dropout')).astype(jnp.float32))
+          f = lambda m, x: (jnp.zeros((2,)), jnp.zeros((2,)))
+          a, b = nn.cond(pred, t, f, self, x) if sel else nn.cond(pred, f, t, self, x)
+          return a, b, jax.random.key_data(self.make_rng('dropout')).astype(jnp.float32)
+      a, b, after = U().apply({}, x, jnp.asarray(bool(sel)), rngs=rngs)
+      ctx.check(not close(after, a) and not close(after, b), 'rng:key_reused_after_cond_with_unequal_draws', lambda: dict(case=desc))
 
 
 def run_nested_adoption(ctx, i, rng):
